@@ -293,7 +293,9 @@ func runC16(e *Env) {
 				if variable {
 					e.Step()
 					dec.Conn.Feed(b)
-					for w := 0; w < 200 && len(sink.Got) <= i && len(sink.Ex) == 0; w++ {
+					// one message per read: wait until this one was consumed (well beyond the scheduler's fairness window
+					// of 200 consecutive picks, otherwise two messages can be coalesced into one read)
+					for w := 0; w < 3000 && len(sink.Got) <= i && len(sink.Ex) == 0; w++ {
 						e.Step()
 					}
 					continue
